@@ -41,8 +41,17 @@ def run_r09b(ctx, P):
         m = re.match(r'^@(crc32|liberasurecode_crc32_alt)\(0,&arg0\.meta,59\)$', e)
         return m.group(1) if m else None
     nvalid = 0
+    def strict_form(t):
+        """`v <= C - 1` is `v < C` and `v > C - 1` is `v >= C`: comparisons with a constant in the form the gate is stated in"""
+        pr, a, b, w, i = t
+        cb = const_of(b)
+        if cb is not None and pr in ('ule', 'sle'):
+            return (pr[0] + 'lt', a, str(cb + 1), w, i)
+        if cb is not None and pr in ('ugt', 'sgt'):
+            return (pr[0] + 'ge', a, str(cb + 1), w, i)
+        return t
     for n, p in enumerate(paths):
-        T = p.truths()
+        T = [strict_form(t) for t in p.truths()]
         valid = p.ret == '0'
         c = const_of(p.ret)
         if c is None:
